@@ -165,7 +165,7 @@ def equal(st: St, a: SV, b: SV):
         if S.sort_of(sa.elem) != S.sort_of(sb.elem): return z3.And(sa.n == 0, sb.n == 0)
         return z3.And(sa.n == sb.n, sa.arr == sb.arr)
     if isinstance(a, SSetV) and isinstance(b, SSetV):
-        return a.mem == b.mem
+        return set_eq(a.mem, b.mem)
     if isinstance(a, SRef) and isinstance(b, SRef):
         ca, cb = st.cell(a.ref), st.cell(b.ref)
         if isinstance(ca, DictCell) and isinstance(cb, DictCell):
@@ -173,10 +173,25 @@ def equal(st: St, a: SV, b: SV):
         if isinstance(ca, ListCell) and isinstance(cb, ListCell):
             return z3.And(ca.n == cb.n, ca.arr == cb.arr)
         if isinstance(ca, SetCell) and isinstance(cb, SetCell):
-            return ca.mem == cb.mem
+            return set_eq(ca.mem, cb.mem)
         if isinstance(ca, ObjCell) and isinstance(cb, ObjCell):
             raise Unsupported("object == object must go through __eq__")
     return z3.BoolVal(False)
+
+
+def _is_lambda(t):
+    return z3.is_quantifier(t) and t.is_lambda()
+
+
+def set_eq(ma, mb):
+    """Equality of two membership arrays.  When one side is a comprehension (a lambda) the equality is
+    stated pointwise: a negated hypothesis then skolemises to a witness element, which the solvers do
+    not find from the extensionality axiom of lambda terms."""
+    if ma.sort() != mb.sort(): return z3.BoolVal(False)
+    if _is_lambda(ma) or _is_lambda(mb):
+        x = S.fresh("x!se", ma.sort().domain())
+        return z3.ForAll([x], ma[x] == mb[x])
+    return ma == mb
 
 
 def as_dictv(st, v):
